@@ -1,36 +1,44 @@
 ------------------------------ MODULE QMatrices ------------------------------
 (***************************************************************************)
-(* Small exact matrices over the rationals of Rationals.tla (sizes 1..3),  *)
-(* used by LinearGaussian.tla (property C06).                              *)
+(* Small exact rational matrices (sizes 1..3) for LinearGaussian.tla       *)
+(* (property C06), built on the gcd-normalised rationals of Rationals.tla. *)
 (*                                                                         *)
-(* Rationals are gcd-normalised pairs <<num, den>>, den > 0.  TLC integers *)
-(* are 32 bit, so every operation here is CHECKED: an operation whose      *)
-(* exact result (or one of its intermediate products) would leave          *)
-(* |.| < 10^9 returns the marker NaN == <<0, 0>> instead of overflowing,   *)
-(* and NaN is absorbing.  A specification using these operators can        *)
-(* therefore never compute a wrong number silently: either a value is      *)
-(* exact, or it is NaN and the behaviour is dropped (LinearGaussian!Ok).   *)
+(* A rational matrix is a record [n |-> N, d |-> d]: N a tuple of rows of  *)
+(* INTEGERS, d a positive integer, value N / d, normalised so that         *)
+(* gcd(d, all entries of N) = 1 (the representation of a value is unique,  *)
+(* equality is structural).  Vectors are one-column matrices.              *)
 (*                                                                         *)
-(* A matrix is a tuple of rows, each row a tuple of rationals.             *)
-(* Inverses use the adjugate: inv(A) = adj(A) / det(A).                    *)
+(* TLC integers are 32 bit, so every operation is CHECKED before it is     *)
+(* carried out: from the largest magnitudes of the operands a bound on     *)
+(* every intermediate is computed, and if that bound is not below 10^9     *)
+(* the result is the marker Bad == [n |-> <<>>, d |-> 0], which is         *)
+(* absorbing.  (The test is conservative: it may refuse a representable    *)
+(* result, it never lets an overflow through; TLC itself aborts on a       *)
+(* native overflow.)  A specification using these operators therefore      *)
+(* never computes a wrong number silently.                                 *)
+(*                                                                         *)
+(* Inverses use the adjugate: inv(N/d) = d adj(N) / det(N).                *)
+(*                                                                         *)
+(* TLC passes operator arguments by name and re-evaluates them on every    *)
+(* use; Eager1/2/3 bind them to evaluated values first (this is purely an  *)
+(* evaluation-cost matter, it does not change any meaning).                *)
 (***************************************************************************)
-EXTENDS Integers, Sequences, TLC, Rationals
+EXTENDS Integers, Sequences, FiniteSets, FiniteSetsExt, TLC, Rationals
 
-Lim  == 999999999                      \* QSmall bound of Rationals.tla
+Lim  == 999999999                      \* the QSmall bound of Rationals.tla
 AbsI(x) == IF x < 0 THEN -x ELSE x
 MulFits(a, b) == a = 0 \/ b = 0 \/ AbsI(a) <= Lim \div AbsI(b)
-AddFits(a, b) == AbsI(a) <= Lim - AbsI(b)        \* for |a|, |b| <= Lim
 
+Eager1(F(_), A)             == CHOOSE r \in {F(a) : a \in {A}} : TRUE
+Eager2(F(_, _), A, B)       == CHOOSE r \in {F(p[1], p[2]) : p \in {<<A, B>>}} : TRUE
+Eager3(F(_, _, _), A, B, C) == CHOOSE r \in {F(p[1], p[2], p[3]) : p \in {<<A, B, C>>}} : TRUE
+
+---------------------------------------------------------------------------
+\* checked scalar rationals <<num, den>> (used for the unscented-transform weights)
 NaN      == <<0, 0>>
 IsNum(q) == q[2] # 0
 Zero     == <<0, 1>>
 One      == <<1, 1>>
-
-\* TLC passes operator arguments by name; Eager* bind them to evaluated values first
-Eager1(F(_), A)       == CHOOSE r \in {F(a) : a \in {A}} : TRUE
-Eager2(F(_, _), A, B) == CHOOSE r \in {F(p[1], p[2]) : p \in {<<A, B>>}} : TRUE
-
-\* a + b with the least common denominator
 CAddV(a, b) ==
   IF ~IsNum(a) \/ ~IsNum(b) THEN NaN
   ELSE LET g == Gcd(a[2], b[2])
@@ -39,13 +47,12 @@ CAddV(a, b) ==
        IN IF MulFits(a[1], t) /\ MulFits(b[1], s) /\ MulFits(a[2], t)
             THEN LET u == a[1] * t
                      v == b[1] * s
-                 IN IF AddFits(u, v) THEN Norm(u + v, a[2] * t) ELSE NaN
+                 IN IF AbsI(u) <= Lim - AbsI(v) THEN Norm(u + v, a[2] * t) ELSE NaN
             ELSE NaN
 CAdd(a0, b0) == Eager2(CAddV, a0, b0)
 CNegV(a)   == IF IsNum(a) THEN QNeg(a) ELSE NaN
 CNeg(a0)   == Eager1(CNegV, a0)
 CSub(a, b) == CAdd(a, CNeg(b))
-\* a * b with cross cancellation before multiplying
 CMulV(a, b) ==
   IF ~IsNum(a) \/ ~IsNum(b) THEN NaN
   ELSE IF a[1] = 0 \/ b[1] = 0 THEN Zero
@@ -61,112 +68,133 @@ CInvV(a)   == IF ~IsNum(a) \/ a[1] = 0 THEN NaN
               ELSE IF a[1] < 0 THEN <<-a[2], -a[1]>> ELSE <<a[2], a[1]>>
 CInv(a0)   == Eager1(CInvV, a0)
 CDiv(a, b) == CMul(a, CInv(b))
-\* comparisons (only meaningful on numbers; products are guarded)
-CCmpOk(a, b) == IsNum(a) /\ IsNum(b) /\ MulFits(a[1], b[2]) /\ MulFits(b[1], a[2])
 CEq(a, b)  == IsNum(a) /\ IsNum(b) /\ a = b          \* normalised representation is unique
-CGe0(a)    == IsNum(a) /\ a[1] >= 0
 CGt0(a)    == IsNum(a) /\ a[1] > 0
 
 ---------------------------------------------------------------------------
-\* vectors and matrices
-NRows(A) == Len(A)
-NCols(A) == Len(A[1])
+\* integer matrices (tuples of rows)
+NRows(N) == Len(N)
+NCols(N) == Len(N[1])
+IMat(r, c, Op(_, _)) == TLCEval([i \in 1..r |-> [j \in 1..c |-> Op(i, j)]])
+MaxAbs(N) == Max({AbsI(N[i][j]) : i \in 1..NRows(N), j \in 1..NCols(N)})
 
-RECURSIVE DotK(_, _, _)
-DotK(f, g, m) == IF m = 0 THEN Zero ELSE CAdd(DotK(f, g, m - 1), CMul(f[m], g[m]))
-
-Mat(r, c, Op(_, _)) == TLCEval([i \in 1..r |-> [j \in 1..c |-> Op(i, j)]])
-Vec(r, Op(_))       == TLCEval([i \in 1..r |-> Op(i)])
-
-QM(A) == Mat(Len(A), Len(A[1]), LAMBDA i, j : Q(A[i][j]))      \* integer matrix -> rational
-QV(v) == Vec(Len(v), LAMBDA i : Q(v[i]))
-
-MTV(A)      == Mat(NCols(A), NRows(A), LAMBDA i, j : A[j][i])
-MT(A0) == Eager1(MTV, A0)
-MAddV(A, B) == Mat(NRows(A), NCols(A), LAMBDA i, j : CAdd(A[i][j], B[i][j]))
-MAdd(A0, B0) == Eager2(MAddV, A0, B0)
-MSubV(A, B) == Mat(NRows(A), NCols(A), LAMBDA i, j : CSub(A[i][j], B[i][j]))
-MSub(A0, B0) == Eager2(MSubV, A0, B0)
-MScaleV(q, A) == Mat(NRows(A), NCols(A), LAMBDA i, j : CMul(q, A[i][j]))
-MScale(q0, A0) == Eager2(MScaleV, q0, A0)
-MMulV(A, B) == Mat(NRows(A), NCols(B),
-                  LAMBDA i, j : DotK(A[i], [k \in 1..NRows(B) |-> B[k][j]], NRows(B)))
-MMul(A0, B0) == Eager2(MMulV, A0, B0)
-MVecV(A, v) == Vec(NRows(A), LAMBDA i : DotK(A[i], v, Len(v)))
-MVec(A0, v0) == Eager2(MVecV, A0, v0)
-VAdd(u, v) == Vec(Len(u), LAMBDA i : CAdd(u[i], v[i]))
-VSub(u, v) == Vec(Len(u), LAMBDA i : CSub(u[i], v[i]))
-Ident(n)   == Mat(n, n, LAMBDA i, j : IF i = j THEN One ELSE Zero)
-
-MIsNum(A) == \A i \in 1..NRows(A) : \A j \in 1..NCols(A) : IsNum(A[i][j])
-VIsNum(v) == \A i \in 1..Len(v) : IsNum(v[i])
-MSmall(A) == \A i \in 1..NRows(A) : \A j \in 1..NCols(A) : IsNum(A[i][j]) => QSmall(A[i][j])
-VSmall(v) == \A i \in 1..Len(v) : IsNum(v[i]) => QSmall(v[i])
-MEq(A, B) == /\ NRows(A) = NRows(B) /\ NCols(A) = NCols(B)
-             /\ \A i \in 1..NRows(A) : \A j \in 1..NCols(A) : CEq(A[i][j], B[i][j])
-VEq(u, v) == Len(u) = Len(v) /\ \A i \in 1..Len(u) : CEq(u[i], v[i])
-IsSym(A)  == NRows(A) = NCols(A) /\ \A i \in 1..NRows(A) : \A j \in 1..NRows(A) : CEq(A[i][j], A[j][i])
+RECURSIVE DotI(_, _, _, _, _)     \* sum_{k=1..m} A[i][k] * B[k][j]   (native integers)
+DotI(A, B, i, j, m) == IF m = 0 THEN 0 ELSE DotI(A, B, i, j, m - 1) + A[i][m] * B[m][j]
+ITr(N)      == IMat(NCols(N), NRows(N), LAMBDA i, j : N[j][i])
+IMulRaw(A, B) == IMat(NRows(A), NCols(B), LAMBDA i, j : DotI(A, B, i, j, NCols(A)))
+\* bound on every intermediate of A * B:  k * max|A| * max|B|
+IMulFits(A, B) == LET a == MaxAbs(A)  b == MaxAbs(B)
+                  IN MulFits(a, b) /\ MulFits(a * b, NCols(A))
+IIdent(n)   == IMat(n, n, LAMBDA i, j : IF i = j THEN 1 ELSE 0)
+IIsSym(N)   == NRows(N) = NCols(N) /\ \A i \in 1..NRows(N) : \A j \in 1..NRows(N) : N[i][j] = N[j][i]
 
 \* determinant of the principal submatrix with (ascending) index tuple ix, |ix| in 1..3
-Det2of(a, b, c, d) == CSub(CMul(a, d), CMul(b, c))
-SubDet(A, ix) ==
-  CASE Len(ix) = 1 -> A[ix[1]][ix[1]]
-    [] Len(ix) = 2 -> Det2of(A[ix[1]][ix[1]], A[ix[1]][ix[2]], A[ix[2]][ix[1]], A[ix[2]][ix[2]])
+IDet2(a, b, c, d) == a * d - b * c
+ISubDet(N, ix) ==
+  CASE Len(ix) = 1 -> N[ix[1]][ix[1]]
+    [] Len(ix) = 2 -> IDet2(N[ix[1]][ix[1]], N[ix[1]][ix[2]], N[ix[2]][ix[1]], N[ix[2]][ix[2]])
     [] Len(ix) = 3 ->
-         LET a == A[ix[1]][ix[1]]  b == A[ix[1]][ix[2]]  c == A[ix[1]][ix[3]]
-             d == A[ix[2]][ix[1]]  e == A[ix[2]][ix[2]]  f == A[ix[2]][ix[3]]
-             g == A[ix[3]][ix[1]]  h == A[ix[3]][ix[2]]  k == A[ix[3]][ix[3]]
-         IN CAdd(CSub(CMul(a, Det2of(e, f, h, k)), CMul(b, Det2of(d, f, g, k))),
-                 CMul(c, Det2of(d, e, g, h)))
-DetV(A) == SubDet(A, [i \in 1..NRows(A) |-> i])
-Det(A0) == Eager1(DetV, A0)
-
-\* all principal index tuples of an n x n matrix, n <= 3
+         N[ix[1]][ix[1]] * IDet2(N[ix[2]][ix[2]], N[ix[2]][ix[3]], N[ix[3]][ix[2]], N[ix[3]][ix[3]])
+       - N[ix[1]][ix[2]] * IDet2(N[ix[2]][ix[1]], N[ix[2]][ix[3]], N[ix[3]][ix[1]], N[ix[3]][ix[3]])
+       + N[ix[1]][ix[3]] * IDet2(N[ix[2]][ix[1]], N[ix[2]][ix[2]], N[ix[3]][ix[1]], N[ix[3]][ix[2]])
+\* bound on every intermediate of an m x m determinant / adjugate:  m! * max^m
+IDetFits(N) == LET a == MaxAbs(N)  m == NRows(N)
+               IN CASE m = 1 -> TRUE
+                    [] m = 2 -> MulFits(a, a) /\ MulFits(a * a, 2)
+                    [] m = 3 -> MulFits(a, a) /\ MulFits(a * a, a) /\ MulFits(a * a * a, 6)
+IDet(N) == ISubDet(N, [i \in 1..NRows(N) |-> i])
+Others(n, i) == IF n = 2 THEN (IF i = 1 THEN <<2>> ELSE <<1>>)
+                ELSE (IF i = 1 THEN <<2, 3>> ELSE IF i = 2 THEN <<1, 3>> ELSE <<1, 2>>)
+IMinor(N, i, j) ==      \* determinant of N without row i and column j
+  LET n == NRows(N)  r == Others(n, i)  c == Others(n, j)
+  IN IF n = 2 THEN N[r[1]][c[1]]
+     ELSE IDet2(N[r[1]][c[1]], N[r[1]][c[2]], N[r[2]][c[1]], N[r[2]][c[2]])
+IAdj(N) == IF NRows(N) = 1 THEN <<<<1>>>>       \* adjugate = transposed cofactor matrix
+           ELSE IMat(NRows(N), NRows(N),
+                     LAMBDA i, j : (IF (i + j) % 2 = 0 THEN 1 ELSE -1) * IMinor(N, j, i))
 PrincipalSets(n) ==
   CASE n = 1 -> {<<1>>}
     [] n = 2 -> {<<1>>, <<2>>, <<1, 2>>}
     [] n = 3 -> {<<1>>, <<2>>, <<3>>, <<1, 2>>, <<1, 3>>, <<2, 3>>, <<1, 2, 3>>}
-\* positive semi-definite: symmetric with every principal minor >= 0
-IsPSD(A) == IsSym(A) /\ \A ix \in PrincipalSets(NRows(A)) : CGe0(SubDet(A, ix))
-\* positive definite: symmetric with every leading principal minor > 0 (Sylvester)
-IsPD(A)  == IsSym(A) /\ \A m \in 1..NRows(A) : CGt0(SubDet(A, [i \in 1..m |-> i]))
-\* Loewner order  A <= B
-LoewnerLe(A, B) == IsPSD(MSub(B, A))
 
-\* adjugate (transpose of the cofactor matrix), n <= 3
-Others(n, i) == IF n = 2 THEN (IF i = 1 THEN <<2>> ELSE <<1>>)
-                ELSE (IF i = 1 THEN <<2, 3>> ELSE IF i = 2 THEN <<1, 3>> ELSE <<1, 2>>)
-Sgn(i, j) == IF (i + j) % 2 = 0 THEN One ELSE <<-1, 1>>
-Minor(A, i, j) ==      \* determinant of A without row i and column j
-  LET n == NRows(A)  r == Others(n, i)  c == Others(n, j)
-  IN IF n = 2 THEN A[r[1]][c[1]]
-     ELSE Det2of(A[r[1]][c[1]], A[r[1]][c[2]], A[r[2]][c[1]], A[r[2]][c[2]])
-AdjV(A) == IF NRows(A) = 1 THEN <<<<One>>>>
-          ELSE Mat(NRows(A), NRows(A), LAMBDA i, j : CMul(Sgn(i, j), Minor(A, j, i)))
-Adj(A0) == Eager1(AdjV, A0)
-MInvV(A) == MScale(CInv(Det(A)), Adj(A))
+---------------------------------------------------------------------------
+\* rational matrices  [n |-> integer matrix, d |-> positive integer]
+Bad     == [n |-> <<>>, d |-> 0]
+MOk(A)  == A.d # 0
+RECURSIVE GcdSet(_, _)
+GcdSet(S, g) == IF g = 1 \/ S = {} THEN g
+                ELSE LET v == CHOOSE v \in S : TRUE IN GcdSet(S \ {v}, Gcd(g, v))
+MkV(N, d) ==       \* normalise N / d  (d # 0)
+  LET s == IF d < 0 THEN -1 ELSE 1
+      g == GcdSet({AbsI(N[i][j]) : i \in 1..NRows(N), j \in 1..NCols(N)} \ {0}, AbsI(d))
+  IN [n |-> IMat(NRows(N), NCols(N), LAMBDA i, j : (s * N[i][j]) \div g), d |-> (s * d) \div g]
+Mk(N0, d0) == Eager2(MkV, N0, d0)
+QM(N)   == [n |-> N, d |-> 1]                           \* integer matrix
+QV(v)   == [n |-> TLCEval([i \in 1..Len(v) |-> <<v[i]>>]), d |-> 1]     \* integer vector as a column
+Rows(A) == NRows(A.n)
+Cols(A) == NCols(A.n)
+Entry(A, i, j) == Norm(A.n[i][j], A.d)                  \* as a rational of Rationals.tla
+MSmall(A) == MOk(A) => A.d <= Lim /\ MaxAbs(A.n) <= Lim
+
+MTV(A)  == IF MOk(A) THEN [n |-> ITr(A.n), d |-> A.d] ELSE Bad
+MT(A0)  == Eager1(MTV, A0)
+MMulV(A, B) ==
+  IF ~MOk(A) \/ ~MOk(B) THEN Bad
+  ELSE IF IMulFits(A.n, B.n) /\ MulFits(A.d, B.d) THEN Mk(IMulRaw(A.n, B.n), A.d * B.d) ELSE Bad
+MMul(A0, B0) == Eager2(MMulV, A0, B0)
+\* A + s B  (s = 1 or -1) over the least common denominator
+MAxpyV(A, B, s) ==
+  IF ~MOk(A) \/ ~MOk(B) THEN Bad
+  ELSE LET g  == Gcd(A.d, B.d)
+           fa == B.d \div g
+           fb == A.d \div g
+           a  == MaxAbs(A.n)
+           b  == MaxAbs(B.n)
+       IN IF MulFits(a, fa) /\ MulFits(b, fb) /\ MulFits(A.d, fa) /\ a * fa <= Lim - b * fb
+            THEN Mk(IMat(Rows(A), Cols(A), LAMBDA i, j : A.n[i][j] * fa + s * B.n[i][j] * fb),
+                    A.d * fa)
+            ELSE Bad
+MAdd(A0, B0) == Eager3(MAxpyV, A0, B0, 1)
+MSub(A0, B0) == Eager3(MAxpyV, A0, B0, -1)
+MInvV(A) ==        \* inv(N / d) = d adj(N) / det(N)
+  IF ~MOk(A) \/ ~IDetFits(A.n) THEN Bad
+  ELSE LET det == IDet(A.n)
+           adj == IAdj(A.n)
+       IN IF det = 0 \/ ~MulFits(MaxAbs(adj), A.d) THEN Bad
+          ELSE Mk(IMat(Rows(A), Rows(A), LAMBDA i, j : A.d * adj[i][j]), det)
 MInv(A0) == Eager1(MInvV, A0)
+Ident(n) == QM(IIdent(n))
 
-\* block diagonal / stacking of a sequence of matrices
+MEq(A, B)  == MOk(A) /\ MOk(B) /\ A = B
+IsSym(A)   == MOk(A) /\ IIsSym(A.n)
+\* sign of a principal minor of N / d is the sign of the minor of N (d > 0);
+\* "undecided" (accepted) when the minor itself is not representable
+MinorGe0(A, ix) == ~IDetFits(A.n) \/ ISubDet(A.n, ix) >= 0
+\* positive semi-definite: symmetric with every principal minor >= 0
+IsPSD(A) == IsSym(A) /\ \A ix \in PrincipalSets(Rows(A)) : MinorGe0(A, ix)
+\* positive definite (Sylvester): symmetric with every leading principal minor > 0
+IsPD(A)  == IsSym(A) /\ (~IDetFits(A.n) \/ \A m \in 1..Rows(A) : ISubDet(A.n, [i \in 1..m |-> i]) > 0)
+\* Loewner order  A <= B
+LoewnerLe(A, B) == LET D == MSub(B, A) IN ~MOk(D) \/ IsPSD(D)
+
+---------------------------------------------------------------------------
+\* stacking a sequence of INTEGER matrices (the observations of one step)
 RECURSIVE SumDims(_, _)
 SumDims(dims, k) == IF k = 0 THEN 0 ELSE SumDims(dims, k - 1) + dims[k]
-\* which block (and offset inside it) does global row r belong to
-RECURSIVE BlockOf(_, _, _)
+RECURSIVE BlockOf(_, _, _)        \* which block does global row r belong to
 BlockOf(dims, r, b) == IF r <= SumDims(dims, b) THEN b ELSE BlockOf(dims, r, b + 1)
-BlockDiag(Ms) ==
+BlockDiagV(Ms) ==
   LET dims == [b \in 1..Len(Ms) |-> NRows(Ms[b])]
       tot  == SumDims(dims, Len(Ms))
-  IN Mat(tot, tot, LAMBDA i, j :
-           LET bi == BlockOf(dims, i, 1)  bj == BlockOf(dims, j, 1)
-           IN IF bi # bj THEN Zero
-              ELSE Ms[bi][i - SumDims(dims, bi - 1)][j - SumDims(dims, bi - 1)])
-VStack(Ms) ==      \* matrices with the same number of columns
+  IN IMat(tot, tot, LAMBDA i, j :
+            LET bi == BlockOf(dims, i, 1)  bj == BlockOf(dims, j, 1)
+            IN IF bi # bj THEN 0
+               ELSE Ms[bi][i - SumDims(dims, bi - 1)][j - SumDims(dims, bi - 1)])
+BlockDiag(Ms0) == Eager1(BlockDiagV, Ms0)
+VStackV(Ms) ==      \* matrices with the same number of columns
   LET dims == [b \in 1..Len(Ms) |-> NRows(Ms[b])]
       tot  == SumDims(dims, Len(Ms))
-  IN Mat(tot, NCols(Ms[1]), LAMBDA i, j :
-           LET bi == BlockOf(dims, i, 1) IN Ms[bi][i - SumDims(dims, bi - 1)][j])
-VConcat(vs) ==
-  LET dims == [b \in 1..Len(vs) |-> Len(vs[b])]
-      tot  == SumDims(dims, Len(vs))
-  IN Vec(tot, LAMBDA i : LET bi == BlockOf(dims, i, 1) IN vs[bi][i - SumDims(dims, bi - 1)])
+  IN IMat(tot, NCols(Ms[1]), LAMBDA i, j :
+            LET bi == BlockOf(dims, i, 1) IN Ms[bi][i - SumDims(dims, bi - 1)][j])
+VStack(Ms0) == Eager1(VStackV, Ms0)
 =============================================================================
